@@ -21,17 +21,24 @@
      substitutions as a simultaneous assignment (C07_selection_parallel_moves), and the agreement of the
      model's address arithmetic with the crate's values (C07_constants_agree).
 
-   NOT proved (gap of C07_selection_partial):
-     - L1 -> L2 for the memory operations: store/load (release and share modes, multi-block chains,
-       block pointer in a spill slot with X10 evacuated), acquire_block, erase_block, share_block_n;
-     - L1 -> L2 for print_i64 (save/restore of caller-saved registers; that is C13's theorem) and for
-       the routine prologue/epilogue;
-     - the reference-count updates that accompany a substitution (erase/share) and the glue between
-       `connections` (typing contexts -> move graph) and C07_selection_parallel_moves;
-     - the generic simulation L0 -> L1 (code_statement over the 11 statement forms, labels, tables).
-   Whole-program preservation is therefore established by the correspondence check (model = Rust on
-   every program) plus execution of the implementation's output on the ISA model against the AxCut
-   machine on every run (see the evidence file), and stated below as C07_codegen_correct_statement. *)
+   ALSO PROVED (second half of this file, round 2): the forward simulation L0 -> L2 of the generic code generator
+   instantiated at AArch64 for the integer fragment and for closures without captured variables - state
+   relation, one theorem per statement form for every context shape (C07_sim_literal / op / op_undefined / ifc /
+   substitute / print / call / exit / prologue / epilogue / create / invoke; print and prologue/epilogue through
+   the C13 theorems of Proof/A64Print.v and A64Entry.v, the substitution through the C11 theorems of
+   Proof/A64Subst.v and A64MemSubst.v), composition (C07_sim_exec, C07_sim_exec_cf) and the program-level theorems
+   C07_codegen_simulates_int and C07_codegen_simulates_cf.
+
+   NOT proved:
+     - L1 -> L2 for the heap statements: store/load (release and share modes, multi-block chains, block pointer in
+       a spill slot with X10 evacuated) and acquire_block on the ISA semantics, hence Let / Switch and Create /
+       Invoke of closures WITH captured variables in the simulation (erase_block / share_block_n are proved:
+       Proof/A64MemSubst.v);
+     - divergence (nothing is said when the linear machine runs out of fuel); label uniqueness is a checked
+       hypothesis (asm_wf, C14), not a consequence.
+   For the heap statements whole-program preservation is established by the correspondence check (model = Rust on
+   every program) plus execution of the implementation's output on the ISA model against the AxCut machine on
+   every run (see the evidence file); the full statement is C07_codegen_correct_statement below. *)
 From Coq Require Import List ZArith NArith String Bool.
 From SCC Require Import Model.ParMoves.
 From SCC Require Import Lang.AxSyn Sem.AxSem Model.Backend Model.A64 Sem.A64Sem
@@ -419,6 +426,22 @@ Theorem C07_sim_prologue_epilogue :
         finishes im pcc s2 (finish (out s2) (OExit z)).
 Proof. exact prologue_ok. Qed.
 Print Assumptions C07_sim_prologue_epilogue.
+(* the two halves under their own names *)
+Theorem C07_sim_prologue :
+  forall (im : image) (args : list Z) (su : list acode),
+    setup (List.length args) = Ok su ->
+    exists s, run_straight im su (init_state args) = MOk s /\
+      frame_ok s sp0 /\ out s = [] /\ (exists f, rget s FREE = Some f) /\
+      (forall i, (i < List.length args)%nat -> rget s (X (2 * N.of_nat i + 5)) = Some (nth i args 0)).
+Proof. exact prologue_only. Qed.
+Print Assumptions C07_sim_prologue.
+Theorem C07_sim_epilogue :
+  forall (im : image) (args : list Z) (su : list acode) (s : astate) (pcc : positive) (s2 : astate) (z : Z),
+    setup (List.length args) = Ok su -> run_straight im su (init_state args) = MOk s ->
+    code_at im pcc cleanup -> frame_ok s2 sp0 -> outer_ok (stack s) sp0 s2 -> rget s2 RETURN1 = Some z ->
+    finishes im pcc s2 (finish (out s2) (OExit z)).
+Proof. exact epilogue_ok. Qed.
+Print Assumptions C07_sim_epilogue.
 (* what keeps `outer_ok`: code that stores only into the spill area, and the print sequence *)
 Theorem C07_sim_outer_kept :
   forall (st0 : PM.t Z) (s s' : astate) (sp : Z),
